@@ -246,6 +246,7 @@ func doRedef(c *core.Ctx, k1, k2 *c13Case) bool {
 	}
 	c.Count("macro: "+trunc(key, 160), out, true)
 	c.P.Traces++
+	c.P.Transitions += 4 // definition, two uses, redefinition: inputs evaluated on one state
 	return true
 }
 
@@ -435,6 +436,7 @@ func c13Session(c *core.Ctx, bounds *[]string) bool {
 		}
 		c.Count("session: "+key, out, true)
 		c.P.Traces++
+		c.P.Transitions += int64(len(hist)) // inputs evaluated on the session
 		return true
 	})
 	if ok {
@@ -495,6 +497,7 @@ func runC13(c *core.Ctx) {
 		}
 		c.Count("macro: "+trunc(key, 160), out, true)
 		c.P.Traces++
+		c.P.Transitions += int64(1 + len(k.args)) // the definition and each use are inputs evaluated on one state
 		return true
 	}
 	ok := true
